@@ -301,8 +301,12 @@ func (r restServerProtocol) extractProtocolResponseHeaders(statusCode int, heade
 	if statusCode/100 != 2 {
 		// the error is re-rendered for the client, so the backend's content-type must not stick
 		headers.Del("Content-Type")
+		// (an error body may be compressed like any other body)
+		compression := headers.Get("Content-Encoding")
+		headers.Del("Content-Encoding")
 		return responseMeta{
-				end: &responseEnd{httpCode: statusCode},
+				end:         &responseEnd{httpCode: statusCode},
+				compression: compression,
 			}, func(_ Codec, buf *bytes.Buffer, end *responseEnd) {
 				if err := httpErrorFromResponse(statusCode, contentType, buf); err != nil {
 					end.err = err
